@@ -1,6 +1,6 @@
 /-
-  C06 — ids and the shutdown window: an id response that went out while stop() was running is in the
-  file stop() leaves, so the restarted gateway knows the id and does not hand it out again
+  C06 — ids and the shutdown window: an id response that went out before or while stop() was running is
+  in the file stop() leaves, so the restarted gateway knows the id and does not hand it out again
   (`ids_never_twice` covers the restart from that file).  Specialisation of `C14.clean_stop_window`.
 -/
 import MySensors.Properties.C14Stop
@@ -9,15 +9,19 @@ namespace MySensors.C06
 
 open MySensors.StopOrder
 
-/-- every id handed out before or during stop() is persisted by it, for every placement of the pump's
-    work relative to stop()'s disconnect and final save -/
-theorem stop_window_ids (evs : List Ev) (s : St) (hs : ∀ i ∈ s.handed, i ∈ s.known)
-    (ha : stopActions evs = script) : ∀ i ∈ (run s evs).handed, i ∈ (run s evs).file :=
-  C14.clean_stop_window evs s hs ha
+/-- every id handed out before or during stop() is persisted by it: for every earlier history of id
+    requests and periodic saves, and every placement of the pump's work relative to stop()'s disconnect
+    and final save -/
+theorem stop_window_ids (pre mid w post : List Ev) (hmid : OnlyProc mid) (hw : OnlyProc w) (hpost : OnlyProc post)
+    (hidle : (run {} (pre ++ .disconnect :: mid)).snap = none) :
+    let fin := run {} (pre ++ .disconnect :: mid ++ .saveStart :: w ++ .saveEnd :: post)
+    ∀ i ∈ fin.handed, i ∈ fin.file :=
+  C14.clean_stop_window pre mid w post {} C14.inv_init hmid hw hpost hidle
 
-/-- and with the save first an id can go out that the file does not hold -/
+/-- with the save first, or with the unsaved mark cleared late, an id can go out that the file does not hold -/
 theorem stop_window_order_matters :
-    ∃ evs, stopActions evs = [.save, .disconnect] ∧ ∃ i ∈ (run {} evs).handed, i ∉ (run {} evs).file :=
-  C14.reversed_order_loses
+    (∃ evs, ∃ i ∈ (run {} evs).handed, i ∉ (run {} evs).file) ∧
+    (∃ evs, (∃ pre, evs = pre ++ script) ∧ ∃ i ∈ (runLate {} evs).handed, i ∉ (runLate {} evs).file) :=
+  ⟨C14.reversed_order_loses, C14.late_clear_loses⟩
 
 end MySensors.C06
